@@ -270,6 +270,21 @@ def task_integrate(p, cells, variant):
         a, b = U[0], U[-1]
         want_f = sum(c * (b ** (k + 1) - a ** (k + 1)) / (k + 1) for k, c in enumerate(cs))
         chk.identities("function-polynomial", [("integral of degree-%d polynomial with %d nodes" % (p + 1, nn), got, want_f)])
+        # default arguments (method None, nnodes None -> degree + 1 nodes): polynomials of degree <= p, also at degree 0
+        f_low = lambda u: sum(c * u ** k for k, c in enumerate(cs[:p + 1]))
+        got = chk.call(calculus.Integrate.function, kv, f_low)
+        want_low = sum(c * (b ** (k + 1) - a ** (k + 1)) / (k + 1) for k, c in enumerate(cs[:p + 1]))
+        chk.identities("function-defaults", [("integral of a degree-%d polynomial with the default rule and size" % p, got, want_low)])
+        chk.exact("function-defaults-exact", got)
+        # a PER-SPAN polynomial (a different one on each span, jumping at the knots), default method: each span is integrated on its own piece
+        cuts = sorted(set(U))
+
+        def f_piece(u):
+            k = max(i for i, x in enumerate(cuts[:-1]) if x <= u) if u < cuts[-1] else len(cuts) - 2
+            return sum((c + k) * (k + 1) * u ** j for j, c in enumerate(cs[:p + 1]))
+        got = chk.call(calculus.Integrate.function, kv, f_piece, None, p + 1)
+        want_p = sum(sum((c + k) * (k + 1) * (hi ** (j + 1) - lo ** (j + 1)) / (j + 1) for j, c in enumerate(cs[:p + 1])) for k, (lo, hi) in enumerate(zip(cuts[:-1], cuts[1:])))
+        chk.identities("function-per-span-polynomial", [("integral of a piecewise degree-%d polynomial, default method" % p, got, want_p)])
 
     return H.run_paths(ctx, fn, "S-con", "p=%d/%s,kv=%d" % (p, "".join(map(str, cells)), variant),
                        dict(kind="c10.integrate", p=p, cells=cells, variant=variant), body)
@@ -424,6 +439,24 @@ def replay(o):
         C = curves.Curve(list(U), P)
         want = sum(P[i] * (U[i + p + 1] - U[i]) for i in range(n)) / (p + 1)
         method = (o.get("tags") or {}).get("method")
+        if "function-" in o.get("id", "") or "no-exception" in o.get("id", ""):
+            # the clauses on Integrate.function: defaults, and a per-span polynomial with the default method (concrete coefficients)
+            kv = knotspace.KnotVector(list(U))
+            cs = [F(k + 2, 3) for k in range(p + 2)]
+            a, b = U[0], U[-1]
+            cuts = sorted(set(U))
+
+            def f_piece(u):
+                k = max(i for i, x in enumerate(cuts[:-1]) if x <= u) if u < cuts[-1] else len(cuts) - 2
+                return sum((c + k) * (k + 1) * u ** j for j, c in enumerate(cs[:p + 1]))
+            want_low = sum(c * (b ** (k + 1) - a ** (k + 1)) / (k + 1) for k, c in enumerate(cs[:p + 1]))
+            want_p = sum(sum((c + k) * (k + 1) * (hi ** (j + 1) - lo ** (j + 1)) / (j + 1) for j, c in enumerate(cs[:p + 1])) for k, (lo, hi) in enumerate(zip(cuts[:-1], cuts[1:])))
+            try:
+                got_low = calculus.Integrate.function(kv, lambda u: sum(c * u ** k for k, c in enumerate(cs[:p + 1])))
+                got_p = calculus.Integrate.function(kv, f_piece, None, p + 1)
+            except Exception as e:
+                return True, dict(defaults=want_low, per_span=want_p), "%s: %s" % (type(e).__name__, str(e)[:100])
+            return (got_low != want_low or got_p != want_p), dict(U=U, coefficients=cs, defaults=want_low, per_span=want_p), dict(defaults=got_low, per_span=got_p)
         try:
             got = calculus.Integrate.scalar(C, None, method) if method else calculus.Integrate.scalar(C)
         except Exception as e:
